@@ -156,14 +156,9 @@ func VfH_test() {
 	vfNote("case:tests=" + string(rune('0'+nt)) + ",examples=" + string(rune('0'+ne)))
 	vfSc.tests, vfSc.examples = nil, nil
 	names := []string{"t0", "t1"}
-	for i := 0; i < nt; i++ {
-		vfSc.tests = append(vfSc.tests, vfSpec(names[i]))
-	}
-	if ne == 1 {
-		vfSc.examples = append(vfSc.examples, vfSpec("e0"))
-	}
 	vfSc.loadErr, vfSc.compileErr, vfSc.asmErr, vfSc.moduleErr = false, false, false, false
-	switch vfChoice("setupFailure", 5) {
+	setup := vfChoice("setupFailure", 5)
+	switch setup {
 	case 1:
 		vfSc.loadErr = true
 	case 2:
@@ -172,6 +167,20 @@ func VfH_test() {
 		vfSc.asmErr = true
 	case 4:
 		vfSc.moduleErr = true
+	}
+	for i := 0; i < nt; i++ {
+		if setup != 0 {
+			vfSc.tests = append(vfSc.tests, vfFuncSpec{}) // never run: one fixed specification is enough
+		} else {
+			vfSc.tests = append(vfSc.tests, vfSpec(names[i]))
+		}
+	}
+	if ne == 1 {
+		if setup != 0 {
+			vfSc.examples = append(vfSc.examples, vfFuncSpec{})
+		} else {
+			vfSc.examples = append(vfSc.examples, vfSpec("e0"))
+		}
 	}
 	vfSc.calls, vfSc.printedFAIL, vfSc.printedOK = 0, false, false
 
